@@ -65,17 +65,24 @@ Definition flstate := lstate float.
 
 Definition core_len (s : flstate) : nat := length (status (c_st (l_core s))).
 
+(* the state of a linker as BaseLinker.__init__ leaves it: the instance attributes lags / leads (read by the feasibility
+   guard of solve_t and by iter_periods) are the longest LAGS / LEADS among the submodels (0 without submodels) *)
+Definition max_over (f : mdesc -> nat) (s : flstate) : nat := fold_left Nat.max (map (fun ic => f (c_desc (snd ic))) (l_subs s)) 0%nat.
+Definition as_constructed (s : flstate) : flstate :=
+  let cd := c_desc (l_core s) in
+  mkL (mkComp (mkDesc (check cd) (endo cd) (max_over lags s) (max_over leads s)) (c_st (l_core s))) (l_subs s) (l_log s).
+
 Definition f_linker_solve_t (ss : subscripts) (hs : lscripts) (sel : option (list sid)) (o : fopts) (t : Z) (s : flstate)
   : flstate * lout :=
   let n := core_len s in
   linker_solve_t_M float PrimFloat.sub PrimFloat.abs PrimFloat.ltb fzero
-                   (ls_sev n ss) (ls_hpre n hs) (ls_hbefore n hs) (ls_hafter n hs) (ls_hpost n hs) sel o t s.
+                   (ls_sev n ss) (ls_hpre n hs) (ls_hbefore n hs) (ls_hafter n hs) (ls_hpost n hs) sel o t (as_constructed s).
 
 Definition f_linker_solve (ss : subscripts) (hs : lscripts) (sel : option (list sid)) (o : fopts) (ps : list Z) (s : flstate)
   : flstate * (lexn + list bool) :=
   let n := core_len s in
   linker_solve_M float PrimFloat.sub PrimFloat.abs PrimFloat.ltb fzero
-                 (ls_sev n ss) (ls_hpre n hs) (ls_hbefore n hs) (ls_hafter n hs) (ls_hpost n hs) sel o ps s.
+                 (ls_sev n ss) (ls_hpre n hs) (ls_hbefore n hs) (ls_hafter n hs) (ls_hpost n hs) sel o ps (as_constructed s).
 
 (* BaseLinker(submodels).solve(start=, end=): lags / leads come from the constructor model applied to the submodels'
    class-level LAGS / LEADS (all submodels share the list span `labels`); labels are integers, located with list.index *)
@@ -90,7 +97,7 @@ Definition f_linker_solve_span (ss : subscripts) (hs : lscripts) (sel : option (
   | Ret (labs, lg, ld) =>
       linker_solve_span_M float PrimFloat.sub PrimFloat.abs PrimFloat.ltb fzero
                           (ls_sev n ss) (ls_hpre n hs) (ls_hbefore n hs) (ls_hafter n hs) (ls_hpost n hs)
-                          Z (locate_index labs) lg ld labs start end_ sel o s
+                          Z (locate_index labs) lg ld labs start end_ sel o (as_constructed s)
   end.
 
 (* a history: several solve_t calls on the same linker, one after the other (each with its own selection, options and
